@@ -876,6 +876,55 @@ def run(ctx):
             restore(ac)
         found.append(('answer depends on the call history / cache setting (%s)' % f['family'], f))
 
+    # ---- oracle 1b: the same structure with different element types, one after the other in this process: what an earlier
+    #      call leaves behind (cache entries, module state, default arguments) must not leak into a later array.  The answer
+    #      does not come from another run of the library but from the input itself (fuse then unfuse_all = the original)
+    import numpy as np
+    import gen as _gen
+    import symmray as _sr
+    dt_stats = {'sequences': 0, 'calls': 0}
+    for k in range(40 if ctx.thorough else 10):
+        sym = ['Z2', 'U1', 'Z2Z2', 'U1U1'][k % 4]
+        try:
+            base = _gen.rand_array(rng, _sr, sym, ndim=rng.randint(2, 3), maxsize=2, keep=rng.choice([1.0, 0.7]), static=False)
+            if not base.blocks:
+                continue
+            g = tuple(rng.sample(range(base.ndim), 2))
+            twins = []
+            for dt in ('float64', 'complex128', 'float32', 'complex64'):
+                blocks = {}
+                for sct, b in base.blocks.items():
+                    b = np.asarray(b).real.astype('float64')
+                    blocks[sct] = (b + 1j * (b[::-1] + 1)).astype(dt) if dt.startswith('complex') else b.astype(dt)
+                twins.append((dt, base.copy_with(blocks=blocks)))
+            rng.shuffle(twins)
+            dt_stats['sequences'] += 1
+            for dt, x in twins:
+                ctx.count(); dt_stats['calls'] += 1
+                y = x.fuse(g)
+                z = y.unfuse_all()
+                perm = [a for a in range(x.ndim) if a not in g]
+                pos = min(g)
+                perm = perm[:pos] + list(g) + perm[pos:]
+                xt = x.transpose(tuple(perm))
+                err = None
+                for sct, b in xt.blocks.items():
+                    zb = z.blocks.get(sct)
+                    if zb is None or str(np.asarray(zb).dtype) != dt or not np.array_equal(np.asarray(zb), np.asarray(b)):
+                        err = 'block %r comes back as %s %s' % (sct, None if zb is None else np.asarray(zb).dtype, None if zb is None else np.asarray(zb).tolist())
+                        break
+                if err is None and any(str(np.asarray(b).dtype) != dt for b in y.blocks.values()):
+                    err = 'fused blocks have element types %r' % sorted({str(np.asarray(b).dtype) for b in y.blocks.values()})
+                if err:
+                    found.append(('fuse of a %s array after arrays of other element types in the same process: %s' % (dt, err),
+                                  {'oracle': 'dtype_history', 'symmetry': sym, 'order': [d for d, _ in twins], 'group': list(g), 'failing_dtype': dt,
+                                   'indices': [snap_index(ix) for ix in x.indices], 'charge': x.charge, 'sectors': [list(sc) for sc in x.blocks]}))
+                    break
+            ctx.nontrivial(('dtype-history', sym, str(sorted(base.blocks)), str(g), str([d for d, _ in twins])))
+        except Exception as e:
+            ctx.note('dtype-history stream: %s: %s' % (type(e).__name__, e))
+    ctx.extra['dtype_history'] = dt_stats
+
     # ---- tie: real cache trace vs Model.Cache.runk (generated policy)
     exprs, meta, branches = lru_cases(ctx, ac, rng, 400 if ctx.thorough else 120)
     branches.update({'hits_in_histories': stats['hits'], 'misses_in_histories': stats['misses'],
